@@ -8,6 +8,7 @@
 from vlib.facts import kids, strip, walk, is_call, call_args, call_object, callee, render, literal, noid, decl_of
 from vlib.cfg import write_target
 from vlib.work import AnalysisBroken
+from vlib.refile import refile
 
 UNITS = ["src/core/device.cpp", "src/core/kernel.cpp", "src/occa/internal/modes/serial/device.cpp", "src/occa/internal/modes/openmp/device.cpp",
          "src/occa/internal/io/cache.cpp", "src/occa/internal/core/device.cpp", "src/utils/hash.cpp", "src/occa/internal/modes/openmp/utils.cpp"]
@@ -164,6 +165,10 @@ def run(ctx):
     hd3 = [c for c in sbk.walk() if is_call(c) and callee(c) == "occa::io::hashDir"]
     ok = len(hd3) == 1 and decl_of(call_args(hd3[0])[1]) == sbk.d["params"][2]["d"]
     R.ob("C06-R3", ok, sbk.q, "backend uses the key it was given", sbk.site(hd3[0]) if hd3 else sbk.relfile, "hashDir(filename, kernelHash) with the kernelHash parameter")
+
+    # the key is stable across identical builds only if the dependency re-hash is the identity when nothing changed (shared with C07)
+    from rules import c07
+    refile(ctx, c07, {"C07-R4": "C06-R4"}, "C07")
 
 
 META = {
